@@ -6,10 +6,12 @@ import subprocess
 import struct
 
 VERIF = os.path.dirname(os.path.dirname(os.path.abspath(__file__)))
-BUILD = os.path.join(VERIF, '.build')
+BUILD = os.environ.get('VERIF_BUILD') or os.path.join(VERIF, '.build')      # overridable: parallel workers (harness/seedpar.sh)
+REPO = os.environ.get('VERIF_REPO') or '/repo'
+LEAN_DIR = os.environ.get('VERIF_LEAN') or os.path.join(VERIF, 'lean')
 IMPL_BIN = os.environ.get('VERIF_IMPL_BIN') or os.path.join(BUILD, 'cargo', 'debug', 'masscanned')   # override: coverage-instrumented build (harness/coverage.sh)
 IMPL_BIN_REL = os.path.join(BUILD, 'cargo', 'release', 'masscanned')
-MDRIVER = os.path.join(VERIF, 'lean', '.lake', 'build', 'bin', 'mdriver')
+MDRIVER = os.path.join(LEAN_DIR, '.lake', 'build', 'bin', 'mdriver')
 TIMESHIM = os.path.join(BUILD, 'timeshim.so')
 
 MAC_ME = bytes.fromhex('c0ffeec0ffee')
